@@ -10,7 +10,7 @@
 (* One state per case; the invariant prints the case as JSON.               *)
 (***************************************************************************)
 EXTENDS Gen_MsgBase, Json, TLC
-CONSTANTS FULL      \* TRUE: everything below; FALSE: a thinned space for the MC self-check
+CONSTANTS SPACE     \* "full": everything below (thorough); "quick": a covering selection; "thin": the MC self-check
 
 Case(ty, fl, codes, n, body, le, bare, via) ==
   [hdr |-> Hdr(ty, fl, codes, n), body |-> body, le |-> le, bare |-> bare, via |-> via]
@@ -27,12 +27,30 @@ N == UNION {{Case(ty, 0, cs, n, b, le, FALSE, "builder") :
 R == {Case(ty, 0, Required(ty), 1, B_u, le, TRUE, "builder") : ty \in KnownTypes, le \in BOOLEAN}
 Thin == UNION {{Case(ty, fl, cs, n, b, le, FALSE, "builder") :
                fl \in {0, 5}, n \in {1, 3}, cs \in {Required(ty), Settable(ty)}, b \in Bodies, le \in BOOLEAN} : ty \in KnownTypes}
-Cases == IF FULL THEN A \cup H \cup N \cup R ELSE Thin
+(* quick tier: every field subset with every flag combination on one body in both byte
+   orders; every field subset with no body and with an fd; every body with the smallest and
+   the largest field set in all three name-length variants; the header route with
+   NO_REPLY_EXPECTED alone and all flags on every field subset, and every flag combination on
+   the smallest header *)
+Q == UNION {
+       {Case(ty, fl, cs, 1, B_su, le, FALSE, "builder") : fl \in BuilderFlags(ty), cs \in FieldSets(ty), le \in BOOLEAN}
+  \cup {Case(ty, 0, cs, 1, b, le, FALSE, "builder") : cs \in FieldSets(ty), b \in {B_none, B_h}, le \in BOOLEAN}
+  \cup {Case(ty, 0, cs, n, b, le, FALSE, "builder") : cs \in {Required(ty), Settable(ty)}, n \in 1..3, b \in Bodies, le \in BOOLEAN}
+  \cup {Case(ty, fl, cs, 1, B_su, TRUE, FALSE, "header") : fl \in {1, 7}, cs \in FieldSets(ty)}
+  \cup {Case(ty, fl, Required(ty), 1, B_none, le, FALSE, "header") : fl \in 0..7, le \in BOOLEAN}
+  : ty \in KnownTypes}
+Cases == CASE SPACE = "full" -> A \cup H \cup N \cup R [] SPACE = "quick" -> Q \cup R [] OTHER -> Thin
 
+(* One state per case.  The cases are reached in two steps (root -> partition -> case) so that
+   TLC's workers emit the partitions in parallel (initial states are computed by one thread). *)
 VARIABLE c
-Init == c \in Cases
-Next == UNCHANGED c
-Emit == PrintT(<<"CASE", ToJson(c)>>)
-\* the specification's own law, checked on every generated case (MC_MsgLayout)
-Law  == RoundTripLaw(c.hdr, c.body, c.le)
+PartOf(x) == x.hdr.type * 2 + (IF x.le THEN 1 ELSE 0)
+Parts == {PartOf(x) : x \in Cases}
+IsCase == "hdr" \in DOMAIN c
+Init == c = [part |-> 0]
+Next == \/ (~IsCase /\ c.part = 0 /\ c' \in {[part |-> k] : k \in Parts})
+        \/ (~IsCase /\ c.part # 0 /\ c' \in {x \in Cases : PartOf(x) = c.part})
+Emit == IsCase => PrintT(<<"CASE", ToJson(c)>>)
+\* the specification's own law, checked on every generated case
+Law  == IsCase => RoundTripLaw(c.hdr, c.body, c.le)
 =============================================================================
